@@ -370,6 +370,10 @@ func parseLinkDestination(block text.Reader) ([]byte, bool) {
 		}
 		i++
 	}
+	if opened > 0 {
+		// an unescaped '(' is still open: parentheses must be balanced or escaped
+		return nil, false
+	}
 	block.Advance(i)
 	return line[:i], len(line[:i]) != 0
 }
